@@ -475,18 +475,29 @@ for k in plan["order"]:
         out.append([k, "raised", type(e).__name__])
 print(json.dumps(out))
 """ % (_common.REPO,)
+    plans = []
     for wu in warmups:
         order = list(range(len(probes)))
         if wu:
             rng.shuffle(order)
-        plan = {"warmup": wu, "order": order, "probes": [[f, t] for f, t, _ in probes]}
+        plans.append((wu, order, {"warmup": wu, "order": order, "probes": [[f, t] for f, t, _ in probes]}))
+
+    def _run_plan(item):
+        wu, order, plan = item
         try:
             p = subprocess.run([_sys.executable, "-c", order_code], input=json.dumps(plan), capture_output=True,
                                text=True, timeout=300)
-            rows = json.loads(p.stdout.strip().split("\n")[-1])
+            return json.loads(p.stdout.strip().split("\n")[-1])
         except Exception as exc:
+            return exc
+
+    from concurrent.futures import ThreadPoolExecutor
+    with ThreadPoolExecutor(max_workers=8) as pool:
+        results = list(pool.map(_run_plan, plans))
+    for (wu, order, plan), rows in zip(plans, results):
+        if isinstance(rows, Exception):
             res.disagreements.append({"stream": "reject.call-order", "input": {"warmup": wu},
-                                      "model": "runs", "code": f"probe failed: {exc}"})
+                                      "model": "runs", "code": f"probe failed: {rows}"})
             continue
         res.count("fresh-process-warmup:" + ("+".join(wu) or "none"))
         for k, what, detail in rows:
